@@ -121,6 +121,8 @@ def to_seq(I, ctx, v):
         raise PyvcUnsupported(f'iteration over {type(c).__name__}')
     if isinstance(v, str):
         return tuple(v)
+    if hasattr(v, '__next__') and hasattr(v, '__iter__') and type(v).__module__ == 'builtins':
+        return tuple(I.from_native(x) for x in v)       # a native iterator over concrete things (iter(()), reversed(...))
     if isinstance(v, Choice):
         out = None
         for g, a in reversed(v.alts):
@@ -1258,7 +1260,15 @@ def m_divmod(I, ctx, args, kwargs, node):
     x, y = znum(a), znum(d)
     if x.is_int() and y.is_int():
         return I.floor_divmod(ctx, x, y)
-    raise PyvcUnsupported('builtins.divmod on reals')
+    # exact rationals (Fraction / Decimal read as the numbers they denote): q = floor(x / y), r = x - q * y, with 0 <= r < |y| towards
+    # the sign of y -- stated for a positive divisor, which is the only use (a number of shares)
+    I.raise_if(ctx, simp(y < 0), UnwindLimit, 'divmod-of-reals-by-a-negative-divisor@' + I.where(node))
+    if ctx.dead:
+        return None
+    q = I.fresh('floor_quotient', 'int')
+    xr, yr = z3.ToReal(x) if x.is_int() else x, z3.ToReal(y) if y.is_int() else y
+    I.axiom(z3.Implies(yr > 0, z3.And(z3.ToReal(q) * yr <= xr, xr < (z3.ToReal(q) + 1) * yr)))
+    return (q, simp(xr - z3.ToReal(q) * yr))
 
 
 @model(builtins.round)
@@ -1465,6 +1475,18 @@ def _clear(I, ctx, recv, c, heap, args, kwargs, node):
 @method(('set', 'clear'))
 def _set_clear(I, ctx, recv, c, heap, args, kwargs, node):
     ctx.put(recv, BitSet([False] * len(c.bits)) if isinstance(c, BitSet) else ())
+    return None
+
+
+@method(('set', 'update'))
+def _set_update(I, ctx, recv, c, heap, args, kwargs, node):
+    if isinstance(c, BitSet):
+        raise PyvcUnsupported('update of an index set')
+    cur = c
+    for a in args:
+        for g, e in items_of(to_seq(I, ctx, a)):
+            cur = seq_append_if(I, ctx, cur, g, e)
+    ctx.put(recv, cur)
     return None
 
 
